@@ -1,2 +1,63 @@
-From BT Require Import Core.Door.
-Theorem stub19 : True. Proof. exact I. Qed.
+(* C19 — is_subhint is a sound preorder and TypeHint wrappers are coherent.
+   Property theorems only; proofs live in Core/DoorProofs.v.  [is_subhint] / [sub] (Core/Door.v)
+   model beartype.door.TypeHint.is_subhint with its three outcomes (True, False,
+   BeartypeDoorIsSubhintException) and are compared with beartype on generated pairs and triples on
+   every run (harness/props/c19.py); [sub n] is the model at recursion fuel n, and the theorems
+   hold at every fuel. *)
+From Coq Require Import List ZArith Bool String.
+From BT Require Import Gen.ClassTable Gen.SignSets Core.PyVal Core.Hint Core.Door Core.DoorProofs.
+Import ListNotations.
+
+(* 1. Reflexivity, three-valued: for every hint of the grammar, is_subhint(h, h) and
+      TypeHint(h) == TypeHint(h) never answer False (they answer True, or raise: see 5). *)
+Theorem C19_reflexive_never_false : forall h n,
+  door_ok h = true -> sub n h h <> RF /\ eqh n h h <> RF.
+Proof. intros h n. exact (refl_never_false h n). Qed.
+Print Assumptions C19_reflexive_never_false.
+
+(* 2. Transitivity on classes and unions of classes (partial: the full grammar is compared with
+      beartype on generated triples only). *)
+Theorem C19_transitive_flat_partial : forall n m k xs ys zs,
+  ~ In c_Hashable zs ->
+  sub (S (S n)) (flat xs) (flat ys) = RT -> sub (S (S m)) (flat ys) (flat zs) = RT ->
+  sub (S (S k)) (flat xs) (flat zs) = RT.
+Proof. exact flat_transitive. Qed.
+Print Assumptions C19_transitive_flat_partial.
+
+(* ... and refuted through typing.Any (known finding F13, by design of gradual typing). *)
+Theorem C19_trans_refuted_through_any :
+  is_subhint (HCls c_int) HAny = RT /\ is_subhint HAny (HCls c_str) = RT /\ is_subhint (HCls c_int) (HCls c_str) = RF.
+Proof. exact trans_refuted_through_any. Qed.
+Print Assumptions C19_trans_refuted_through_any.
+
+(* 3. Soundness with respect to checking, on Any-free hints built from classes, unions,
+      one-argument containers, mappings and fixed / variadic tuples: whenever is_subhint(A, B)
+      answers True, every object satisfying A at full depth satisfies B. *)
+Theorem C19_sound_simple : forall pb n a b x,
+  simple a = true -> simple b = true -> sub n a b = RT -> sat pb a x = true -> sat pb b x = true.
+Proof. intros pb n. exact (sound_simple pb n). Qed.
+Print Assumptions C19_sound_simple.
+
+(* ... Annotated hints compare by their metahints and (equal) metadata (F12, fixed in the repository). *)
+Theorem C19_annotated_unrelated_rejected :
+  let v := VInst [c_object] in
+  is_subhint (HAnnot (HCls c_str) [v]) (HAnnot (HCls c_int) [v]) = RF
+  /\ is_subhint (HAnnot (HCls c_bool) [v]) (HAnnot (HCls c_int) [v]) = RT.
+Proof. exact annotated_unrelated_rejected. Qed.
+Print Assumptions C19_annotated_unrelated_rejected.
+
+(* 5. The third outcome is reachable on a hint compared with itself (known finding F25). *)
+Theorem C19_reflexivity_raises :
+  let h := HUnion [HCont s_Collection (HCls c_str); HMap m_Dict (HCls c_str) (HCls c_int)] in
+  is_subhint h h = RX.
+Proof. exact refl_raises_on_arity_clash. Qed.
+Print Assumptions C19_reflexivity_raises.
+
+(* Non-vacuity of (3): list[bool] <= Sequence[int | str] and tuple[bool, str] <= tuple[object-free union, ...]. *)
+Example C19_example :
+  simple (HCont s_List (HCls c_bool)) = true
+  /\ simple (HCont s_Sequence (HUnion [HCls c_int; HCls c_str])) = true
+  /\ is_subhint (HCont s_List (HCls c_bool)) (HCont s_Sequence (HUnion [HCls c_int; HCls c_str])) = RT
+  /\ is_subhint (HTuple [HCls c_bool; HCls c_str]) (HCont s_Tuple (HUnion [HCls c_int; HCls c_str])) = RT
+  /\ is_subhint (HCont s_Sequence (HCls c_int)) (HCont s_List (HCls c_int)) = RF.
+Proof. vm_compute. repeat split. Qed.
